@@ -34,14 +34,21 @@ def gen(ctx, cfg, tag, **kw):
     return r.records
 
 
+def gen_menu(ctx):
+    r = D.run_tlc(ctx, "C04_Menu", "C04_menu.cfg", tag="gen-menu", workers=1)
+    if r.violated:
+        raise D.Inconclusive("menu generation failed: %s" % r.stdout[-1500:])
+    return r.records
+
+
 def stress_configs(ctx):
     if ctx.tier == "quick":
-        return [dict(g=8, e=14, r=3, procs=4, calls=24, tz=TZS[ctx.seed % 4])]
+        return [dict(g=8, e=14, r=3, procs=4, calls=24, cover=2, post=400, tz=TZS[ctx.seed % 4])]
     out = []
     i = 0
     for g, e, r, calls in ((2, 4, 1, 100), (8, 12, 3, 60), (32, 30, 4, 40)):
         for procs in (1, 4, 16):
-            out.append(dict(g=g, e=e, r=r, procs=procs, calls=calls, tz=TZS[(i + ctx.seed) % 4]))
+            out.append(dict(g=g, e=e, r=r, procs=procs, calls=calls, cover=3 if g < 32 else 2, post=1200, tz=TZS[(i + ctx.seed) % 4]))
             i += 1
     return out
 
@@ -50,7 +57,12 @@ def run(ctx):
     quick = ctx.tier == "quick"
     binary = D.build_harness(ctx, "c04")
     racebin = D.build_harness(ctx, "c04", race=True)
-    D.stage_spec(ctx, params={"ObsFile": ""})
+    # the implementation's function tables: the stress menu has one coverage program per function
+    D.run_harness(ctx, binary, ["funcs", "-", ctx.path("funcs.ndjson")])
+    nfuncs = len(D.read_ndjson(ctx.path("funcs.ndjson")))
+    if nfuncs < 60:
+        raise D.Inconclusive("only %d functions dumped from the implementation's tables" % nfuncs)
+    D.stage_spec(ctx, params={"ObsFile": "", "FuncFile": ctx.path("funcs.ndjson")})
 
     # ------------------------------------------------------------------ role 1: the model and its mutant twins
     # ------------------------------------------------------------------ role 2: cases (independent TLC runs, a few at a time)
@@ -70,7 +82,7 @@ def run(ctx):
         G("schedA", "C04_schedA.cfg", workers=4)
         G("schedD", "C04_schedD.cfg", workers=4)
         G("time", "C04_time.cfg", workers=2)
-        G("menu", "C04_menu.cfg", workers=1)
+        jobs["menu"] = ex.submit(gen_menu, ctx)
         if quick:
             G("hist1", "C04_hist1.cfg", workers=4)
             G("hist3-sim", "C04_hist3.cfg", simulate="num=40", depth=30, workers=4)
@@ -111,6 +123,8 @@ def run(ctx):
     menu = [r for r in res["menu"] if r.get("kind") == "stressmenu"]
     if len(menu) != 1:
         raise D.Inconclusive("stress menu not emitted")
+    if len(menu[0].get("cover", [])) != nfuncs:
+        raise D.Inconclusive("the stress menu covers %d of %d functions" % (len(menu[0].get("cover", [])), nfuncs))
     json.dump(menu[0], open(ctx.path("menu.json"), "w"))
     D.write_ndjson(ctx.path("hist.cases"), hist)
     D.write_ndjson(ctx.path("sched.cases"), sched)
@@ -203,7 +217,10 @@ def run(ctx):
     evaluations = (sum(9 * len(o["calls"]) for o in obs if o["kind"] == "hist")
                    + sum(2 + 2 * len(o["evals"]) for o in obs if o["kind"] == "sched")
                    + sum(8 for o in obs if o["kind"] == "time") + n_events // 2)
-    ctx.extra.update({"stress_traces": len(traces), "stress_events": n_events,
+    ctx.extra.update({"functions_in_table": nfuncs,
+                      "functions_covered_concurrently": min([nfuncs - len(t.get("skipped", [])) for t in traces] or [0]),
+                      "functions_skipped": sorted({n for t in traces for n in t.get("skipped", [])}),
+                      "stress_traces": len(traces), "stress_events": n_events,
                       "race_reports": sum(t.get("races", 0) for t in traces),
                       "stress_configs": [t["id"] for t in traces]})
     samples = []
